@@ -831,14 +831,18 @@ fn run_stream(tier: Tier, c: &Stream) -> Outcome {
     };
     let mut o = Outcome::ok("");
     let runs: Vec<(usize, StreamRun)> = sizes.iter().map(|s| (*s, stream_once(c, *s))).collect();
-    let small = &runs[0].1;
     let summary = runs.iter().map(|(s, r)| format!("{} MiB: build peak {} B, read peak {} B{}", s >> 20, r.build_peak, r.read_peak, if r.read_ok { String::new() } else { format!(" ({})", r.err) })).collect::<Vec<_>>().join("; ");
-    for (s, r) in &runs[1..] {
-        // bounded buffer: independent of the message size (an allowance for allocator-size
-        // classes and growth strategies of constant-size buffers)
-        if r.build_peak > small.build_peak + 256 * 1024 {
-            o.push("C19:streaming:builder-peak-grows-with-message", format!("{}: {summary}", c.name));
-        }
+    // the buffers of the pipeline are sized by its largest unit (AEAD chunk, partial-body chunk):
+    // "independent of the message size" is judged from the first message that fills them
+    let chunk = match c.cfg.enc {
+        Enc::V2(_, _, ch) => 1usize << (ch as usize + 6),
+        _ => 0,
+    };
+    let partial = if c.cfg.partial_exp == 0 { 512 * 1024 } else { 1usize << c.cfg.partial_exp };
+    let unit = chunk.max(partial);
+    let base_i = runs.iter().position(|(s, _)| *s >= 2 * unit).unwrap_or(runs.len() - 1);
+    let small = &runs[base_i].1;
+    for (s, r) in &runs {
         if c.v1_mode == 2 {
             // 1 MiB limit: the 1 MiB message (plus framing) and larger ones exceed it
             if r.read_ok {
@@ -847,22 +851,22 @@ fn run_stream(tier: Tier, c: &Stream) -> Outcome {
             if r.read_peak > 3 * 1024 * 1024 + 512 * 1024 {
                 o.push("C19:streaming:checkfirst-buffers-beyond-limit", format!("{}: {summary}", c.name));
             }
-        } else {
-            if r.read_peak > small.read_peak + 256 * 1024 {
-                o.push("C19:streaming:reader-peak-grows-with-message", format!("{}: {summary}", c.name));
-            }
-            if !r.read_ok || r.read_bytes != *s || !r.verified {
-                o.push("C19:streaming:roundtrip-broken", format!("{}: {} MiB: ok={} bytes={} verified={} {}", c.name, s >> 20, r.read_ok, r.read_bytes, r.verified, r.err));
-            }
+        } else if !r.read_ok || r.read_bytes != *s || !r.verified {
+            o.push("C19:streaming:roundtrip-broken", format!("{}: {} MiB: ok={} bytes={} verified={} {}", c.name, s >> 20, r.read_ok, r.read_bytes, r.verified, r.err));
         }
     }
-    // absolute ceiling for every size: 2 x (largest chunk + tag) + compression state + constants
-    let chunk = match c.cfg.enc {
-        Enc::V2(_, _, ch) => 1usize << (ch as usize + 6),
-        _ => 0,
-    };
-    let partial = if c.cfg.partial_exp == 0 { 512 * 1024 } else { 1usize << c.cfg.partial_exp };
-    let ceiling = 6 * 1024 * 1024 + 4 * chunk + 4 * partial;
+    for (_, r) in &runs[base_i + 1..] {
+        // bounded buffer: independent of the message size (an allowance for allocator-size
+        // classes and growth strategies of constant-size buffers)
+        if r.build_peak > small.build_peak + 256 * 1024 {
+            o.push("C19:streaming:builder-peak-grows-with-message", format!("{}: {summary}", c.name));
+        }
+        if c.v1_mode != 2 && r.read_peak > small.read_peak + 256 * 1024 {
+            o.push("C19:streaming:reader-peak-grows-with-message", format!("{}: {summary}", c.name));
+        }
+    }
+    // absolute ceiling for every size: a small multiple of the largest unit + compression state
+    let ceiling = 8 * 1024 * 1024 + 8 * chunk + 4 * partial;
     for (_, r) in &runs {
         if r.build_peak > ceiling || (c.v1_mode != 2 && r.read_peak > ceiling) {
             o.push("C19:streaming:peak-above-fixed-ceiling", format!("{}: ceiling {ceiling} B; {summary}", c.name));
@@ -986,7 +990,7 @@ pub fn check(ctx: &Ctx) {
     ctx.run_space(
         "streaming",
         true,
-        "messages of 1 and 16 MiB (thorough: 256 MiB) produced by MessageBuilder::from_reader from an allocation-free source and consumed by Message::from_bytes / from_armor -> decrypt -> decompress -> 4 KiB reads -> verify through a fixed 256 KiB ring buffer between two threads, for 9 (13) configurations (literal, partial sizes, zlib/deflate/bzip2, one-pass signed, SEIPDv2 with 64 B / 64 KiB / 4 MiB chunks, SEIPDv1 streaming, armored stack): per-thread allocation peak at 16 / 256 MiB <= peak at 1 MiB + 256 KiB and below a fixed ceiling; SEIPDv1 CheckFirst with a 1 MiB limit must refuse every message above it while buffering <= 3.5 MiB",
+        "messages of 1 and 16 MiB (thorough: 256 MiB) produced by MessageBuilder::from_reader from an allocation-free source and consumed by Message::from_bytes / from_armor -> decrypt -> decompress -> 4 KiB reads -> verify through a fixed 256 KiB ring buffer between two threads, for 9 (13) configurations (literal, partial sizes, zlib/deflate/bzip2, one-pass signed, SEIPDv2 with 64 B / 64 KiB / 4 MiB chunks, SEIPDv1 streaming, armored stack): per-thread allocation peak at the larger sizes <= peak at the first size that fills the pipeline's largest unit (AEAD chunk / partial chunk) + 256 KiB, and below a fixed ceiling (8 MiB + 8 x chunk + 4 x partial); SEIPDv1 CheckFirst with a 1 MiB limit must refuse every message above it while buffering <= 3.5 MiB",
         stream_cases(tier).into_par_iter(),
         |c| run_stream(tier, c),
     );
@@ -1021,7 +1025,7 @@ pub fn replay(space: &str, case: &Value) -> Option<Outcome> {
             // the tier of the original run is not recorded: quick sizes reproduce growth findings
             Some(run_family(Tier::Quick, fam))
         }
-        "streaming" => replay_as::<Stream>(case, |c| run_stream(Tier::Quick, c)),
+        "streaming" => replay_as::<Stream>(case, |c| run_stream(Tier::Thorough, c)),
         "argon2_ceiling" => Some(run_argon2(Tier::Thorough, case.as_u64()? as u8)),
         "iterated_s2k" => replay_as::<Iter>(case, run_iterated),
         _ => None,
